@@ -19,6 +19,7 @@ TRACE_CFG = """CONSTANTS
   AllowBlock = FALSE
   AllowDeny = FALSE
   PolIds = {0}
+  AllowOther = FALSE
   TraceFile = "%s"
 SPECIFICATION TSpec
 INVARIANT NotAccepted
